@@ -160,3 +160,37 @@ def corrupt_low_edge(tr):
                 succ[n] = [t[0], -t[1], t[2]]
                 return 'low edge of node %d flipped in event %d' % (n + 1, i + 1)
     raise tlcrun.MachineryError('canary: no held node to corrupt')
+
+
+def sweep_canary(chk, path, rowop, clause):
+    """Corrupt one result of one `rowop` row of a sweep file; TLC must object."""
+    out = path.replace('.ndjson', '_canary.ndjson')
+    done = False
+    with open(path) as f, open(out, 'w') as g:
+        for line in f:
+            if not done and ('"op":"%s"' % rowop) in line:
+                d = json.loads(line)
+                if 'cs' in d:
+                    for i, c in enumerate(d['cs']):
+                        if c > 0:
+                            d['cs'][i] = c + 1
+                            done = True
+                            break
+                elif 'rs' in d:
+                    for i, r in enumerate(d['rs']):
+                        if isinstance(r, int) and abs(r) > 1 and r != d.get('us', d.get('vs'))[i]:
+                            d['rs'][i] = -r
+                            done = True
+                            break
+                if done:
+                    line = json.dumps(d, separators=(',', ':')) + '\n'
+            g.write(line)
+    if not done:
+        raise tlcrun.MachineryError('canary: no %s row to corrupt' % rowop)
+    v, _ = tlcrun.validate_shards('TraceSweep', 'TraceSweep.cfg', [out],
+                                  chk.pid + '_canary')
+    os.remove(out)
+    if not any(clause in c for x in v for c in x[3]):
+        raise tlcrun.MachineryError(
+            'sweep canary accepted (%s, %s): %r' % (rowop, clause, v))
+    chk.extra['canaries_rejected'] = chk.extra.get('canaries_rejected', 0) + 1
